@@ -121,11 +121,22 @@ pub fn hist_spec(id: &str, tier: &str) -> Option<(HistSpec, Info)> {
         stop_on_taint,
         nontrivial: nt,
         post: Post::None,
+        panic_ops: match id {
+            "C01" => vec!["insert", "remove", "remove_keep_tree", "remove_children", "retain", "clear", "entry*", "vacant*", "occupied*", "get", "get_mut", "get_key_value", "contains_key", "collect", "from_iter", "view_mut.set", "view_mut.remove", "iter"],
+            "C02" => vec!["get_lpm", "get_lpm_prefix", "get_lpm_mut"],
+            "C03" => vec!["iter*", "keys", "values*", "into_*", "ref_into_iter", "view_iter", "view_into_iter"],
+            "C09" => vec!["cover*", "get_spm*"],
+            "C10" => vec!["children*", "into_children", "remove_children", "retain"],
+            "C11" => vec!["view_at", "view_mut_at", "view_mut.split", "view_mut.left", "view_mut.right", "view.left", "view.right", "view_mut", "view.iter"],
+            "C12" => vec!["view.find*", "view_mut.find*", "view.view_at", "view_mut.view_mut_at"],
+            "C13" => vec!["iter_mut", "values_mut", "children_mut", "get_mut", "get_lpm_mut", "view_mut.iter_mut", "view_mut.values_mut", "view_mut.into_iter", "view_mut.value_mut", "view_mut.prefix_value_mut", "union_mut", "intersection_mut", "difference_mut", "covering_difference_mut"],
+            _ => vec![],
+        },
     };
     let gen_note = "cases are proptest-generated (universe by random walk over related prefixes, operation list over the complete public mutator alphabet, two maps with different value types); every case is executed against the crate built from /repo's working tree and a BTreeMap model in lock-step";
     let r = match id {
         "C01" => (
-            mk("C01", &[1], vec!["C01", "C03"], Weights::full(), all_types(), budget(tier, (260, 1, 40), (1500, 16, 200)), true, false, nt_c01),
+            mk("C01", &[1], vec!["C01", "C03"], Weights::full(), all_types(), budget(tier, (520, 4, 40), (1500, 16, 200)), true, false, nt_c01),
             Info {
                 level: "exploration",
                 rule: "non-trivial = history with >=3 keys live at some point, a removal-class op that hit a present key, an insert-class op after it and >=1 op outside {insert, remove}; distinct by hash of the serialized case",
@@ -133,7 +144,7 @@ pub fn hist_spec(id: &str, tier: &str) -> Option<(HistSpec, Info)> {
             },
         ),
         "C02" => (
-            mk("C02", &[2], vec!["C02"], Weights::leftovers(), all_types(), budget(tier, (200, 1, 30), (1200, 16, 120)), true, false, nt_c02),
+            mk("C02", &[2], vec!["C02"], Weights::leftovers(), all_types(), budget(tier, (400, 4, 30), (1200, 16, 120)), true, false, nt_c02),
             Info {
                 level: "exploration",
                 rule: "non-trivial = history that left a value-less leftover node and produced a query with >=2 nested covering entries whose LPM is strictly shorter than the query; distinct by hash of the case",
@@ -141,7 +152,7 @@ pub fn hist_spec(id: &str, tier: &str) -> Option<(HistSpec, Info)> {
             },
         ),
         "C03" => (
-            mk("C03", &[3], vec!["C03"], Weights::leftovers(), all_types(), budget(tier, (200, 1, 30), (1200, 16, 120)), false, false, nt_c03),
+            mk("C03", &[3], vec!["C03", "C01:contents"], Weights::leftovers(), all_types(), budget(tier, (400, 4, 30), (1200, 16, 120)), false, false, nt_c03),
             Info {
                 level: "exploration",
                 rule: "non-trivial = history reaching >=3 live entries (value-less leftovers reported in classes.leftover_created); distinct by hash of the case",
@@ -149,7 +160,7 @@ pub fn hist_spec(id: &str, tier: &str) -> Option<(HistSpec, Info)> {
             },
         ),
         "C04" => (
-            mk("C04", &[4], vec!["C04"], Weights::full(), all_types(), budget(tier, (300, 1, 40), (1800, 16, 200)), false, false, nt_c04),
+            mk("C04", &[4], vec!["C04"], Weights::full(), all_types(), budget(tier, (600, 4, 40), (1800, 16, 200)), false, false, nt_c04),
             Info {
                 level: "exploration",
                 rule: "non-trivial = history with >=2 different counter-affecting op kinds other than plain insert/remove, one of them on a handle path or a value-less node; distinct by hash of the case",
@@ -157,7 +168,7 @@ pub fn hist_spec(id: &str, tier: &str) -> Option<(HistSpec, Info)> {
             },
         ),
         "C09" => (
-            mk("C09", &[9], vec!["C09"], Weights::leftovers(), all_types(), budget(tier, (200, 1, 30), (1200, 16, 120)), true, false, nt_c09),
+            mk("C09", &[9], vec!["C09"], Weights::leftovers(), all_types(), budget(tier, (400, 4, 30), (1200, 16, 120)), true, false, nt_c09),
             Info {
                 level: "exploration",
                 rule: "non-trivial = history producing a query with >=2 covering entries; distinct by hash of the case",
@@ -165,7 +176,7 @@ pub fn hist_spec(id: &str, tier: &str) -> Option<(HistSpec, Info)> {
             },
         ),
         "C10" => (
-            mk("C10", &[10], vec!["C10"], Weights::full(), all_types(), budget(tier, (200, 1, 40), (1200, 16, 160)), true, false, nt_c10),
+            mk("C10", &[10], vec!["C10"], Weights::full(), all_types(), budget(tier, (400, 4, 40), (1200, 16, 160)), true, false, nt_c10),
             Info {
                 level: "exploration",
                 rule: "non-trivial = history in which a selector covered a strict non-empty subset of the entries and a remove_children / non-constant retain removed a strict subset; distinct by hash of the case",
@@ -173,7 +184,7 @@ pub fn hist_spec(id: &str, tier: &str) -> Option<(HistSpec, Info)> {
             },
         ),
         "C15" => (
-            mk("C15", &[15], vec!["C15"], if tier == "thorough" { Weights::full() } else { Weights::full() }, all_types(), budget(tier, (220, 1, 40), (1300, 16, 200)), false, false, nt_c15),
+            mk("C15", &[15], vec!["C15"], if tier == "thorough" { Weights::full() } else { Weights::full() }, all_types(), budget(tier, (440, 4, 40), (1300, 16, 200)), false, false, nt_c15),
             Info {
                 level: "exploration",
                 rule: "non-trivial = history in which a removal collapsed a branch (node count dropped by >=2) or retain removed >=2 entries; distinct by hash of the case",
@@ -181,7 +192,7 @@ pub fn hist_spec(id: &str, tier: &str) -> Option<(HistSpec, Info)> {
             },
         ),
         "C16" => (
-            mk("C16", &[16], vec!["C16"], Weights::full(), all_types(), budget(tier, (220, 1, 40), (1300, 16, 200)), false, false, nt_c16),
+            mk("C16", &[16], vec!["C16"], Weights::full(), all_types(), budget(tier, (440, 4, 40), (1300, 16, 200)), false, false, nt_c16),
             Info {
                 level: "exploration",
                 rule: "non-trivial = history with >=1 collapse and a later allocation; distinct by hash of the case",
@@ -189,7 +200,7 @@ pub fn hist_spec(id: &str, tier: &str) -> Option<(HistSpec, Info)> {
             },
         ),
         "C18" => (
-            mk("C18", &[18], vec!["C18"], Weights::full(), host_types(), budget(tier, (260, 1, 40), (1500, 16, 160)), false, false, nt_c18),
+            mk("C18", &[18], vec!["C18"], Weights::full(), host_types(), budget(tier, (520, 4, 40), (1500, 16, 160)), false, false, nt_c18),
             Info {
                 level: "exploration",
                 rule: "non-trivial = history in which a stored key was re-inserted (another representation) and a value-only access happened; distinct by hash of the case",
@@ -201,7 +212,7 @@ pub fn hist_spec(id: &str, tier: &str) -> Option<(HistSpec, Info)> {
                 let mut w = Weights::full();
                 w.get_mut = 6; w.lpm_mut = 6; w.iter_mut = 8; w.children_mut = 8; w.view_write = 8; w.view_iter = 10; w.setop = 14; w.insert = 40;
                 w
-            }, all_types(), budget(tier, (220, 1, 40), (1300, 16, 160)), false, false, nt_c13),
+            }, all_types(), budget(tier, (440, 4, 40), (1300, 16, 160)), false, false, nt_c13),
             Info {
                 level: "exploration",
                 rule: "non-trivial = history in which a mutable traversal yielded >=2 references while at least one entry was not yielded, or a *_mut set operation ran over two non-empty operands, and a value was written through a yielded reference; distinct by hash of the case",
@@ -209,7 +220,7 @@ pub fn hist_spec(id: &str, tier: &str) -> Option<(HistSpec, Info)> {
             },
         ),
         "C20" => (
-            mk("C20", &[20, 4], vec!["C20"], Weights::full(), all_types(), budget(tier, (260, 1, 40), (1500, 16, 200)), false, true, nt_c20),
+            mk("C20", &[20, 4], vec!["C20"], Weights::full(), all_types(), budget(tier, (520, 4, 40), (1500, 16, 200)), false, true, nt_c20),
             Info {
                 level: "exploration",
                 rule: "non-trivial = history with >=1 boundary-length prefix and >=1 handle-level sequence of >=2 calls; distinct by hash of the case",
@@ -217,7 +228,7 @@ pub fn hist_spec(id: &str, tier: &str) -> Option<(HistSpec, Info)> {
             },
         ),
         "C11" => {
-            let mut s = mk("C11", &[11], vec!["C11"], Weights::full(), all_types(), budget(tier, (120, 1, 30), (600, 16, 100)), true, false, nt_sub);
+            let mut s = mk("C11", &[11], vec!["C11"], Weights::full(), all_types(), budget(tier, (240, 4, 30), (600, 16, 100)), true, false, nt_sub);
             s.post = Post::C11;
             (
                 s,
@@ -229,7 +240,7 @@ pub fn hist_spec(id: &str, tier: &str) -> Option<(HistSpec, Info)> {
             )
         }
         "C12" => {
-            let mut s = mk("C12", &[12], vec!["C12"], Weights::full(), all_types(), budget(tier, (60, 1, 24), (300, 16, 60)), true, false, nt_sub);
+            let mut s = mk("C12", &[12], vec!["C12"], Weights::full(), all_types(), budget(tier, (120, 4, 24), (300, 16, 60)), true, false, nt_sub);
             s.post = Post::C12;
             s.max_uni = 10;
             (
@@ -282,7 +293,7 @@ fn nt_ev(name: &'static str) -> fn(&Events) -> bool {
 }
 
 fn pair_spec(id: &'static str, focus: &[u32], accept: Vec<&'static str>, tier: &str, nt: fn(&Events) -> bool) -> PairSpec {
-    let (cases, shards, max_ops) = if tier == "thorough" { (4000, 16, 40) } else { (450, 1, 24) };
+    let (cases, shards, max_ops) = if tier == "thorough" { (4000, 16, 40) } else { (700, 4, 28) };
     PairSpec {
         id,
         focus: Focus::of(focus),
@@ -292,6 +303,14 @@ fn pair_spec(id: &'static str, focus: &[u32], accept: Vec<&'static str>, tier: &
         shards,
         max_ops,
         nontrivial: nt,
+        panic_ops: match id {
+            "C05" => vec!["union", "union_mut"],
+            "C06" => vec!["intersection", "intersection_mut"],
+            "C07" => vec!["difference", "difference_mut", "covering_difference", "covering_difference_mut"],
+            "C08" => vec!["union", "difference", "difference_mut"],
+            "C13" => vec!["union_mut", "intersection_mut", "difference_mut", "covering_difference_mut"],
+            _ => vec![],
+        },
     }
 }
 
